@@ -26,6 +26,7 @@ Section C14.
   Variable as_key : item -> option K.
   Variable as_item : K -> option item.
   Variable key_of_key : K -> option K.
+  Variable hashable : item -> bool.
   Hypothesis keqb_eq : forall a b, keqb a b = true <-> a = b.
   Hypothesis ieqb_eq : forall a b, ieqb a b = true <-> a = b.
   Hypothesis as_key_self : forall x k, as_key x = Some k ->
@@ -33,9 +34,9 @@ Section C14.
   Hypothesis key_of_key_id : forall k k', key_of_key k = Some k' -> k' = k.
 
   Notation dict := (@dict item K).
-  Notation run := (run key keqb ieqb valid as_key as_item key_of_key).
-  Notation step := (step key keqb ieqb valid as_key as_item key_of_key).
-  Notation spec_run := (spec_run key keqb ieqb valid key_of_key).
+  Notation run := (run key keqb ieqb valid as_key as_item key_of_key hashable).
+  Notation step := (step key keqb ieqb valid as_key as_item key_of_key hashable).
+  Notation spec_run := (spec_run key keqb ieqb valid key_of_key hashable).
   Notation from_iterable := (from_iterable key keqb ieqb valid).
   Notation fresh := (fresh key keqb ieqb valid).
   Notation omap := (omap key keqb ieqb valid).
@@ -72,7 +73,7 @@ Section C14.
     run enf d ops = spec_run enf d ops /\
     Inv (snd (run enf d ops)) /\ TInv (snd (run enf d ops)) /\
     Forall out_ok (fst (run enf d ops)).
-  Proof. exact (run_refines key keqb ieqb valid as_key as_item key_of_key keqb_eq ieqb_eq as_key_self key_of_key_id). Qed.
+  Proof. exact (run_refines key keqb ieqb valid as_key as_item key_of_key hashable keqb_eq ieqb_eq as_key_self key_of_key_id). Qed.
 
   (* the constructor (and _from_iterable) builds exactly the specified new
      container, which is coherent and well typed *)
@@ -92,12 +93,12 @@ Section C14.
     let d' := snd (run enf d ops) in
     NoDup (keys d') /\ Forall (fun p => fst p = key (snd p)) d' /\
     forallb valid (vals d') = true.
-  Proof. exact (reachable_inv key keqb ieqb valid as_key as_item key_of_key keqb_eq ieqb_eq as_key_self key_of_key_id). Qed.
+  Proof. exact (reachable_inv key keqb ieqb valid as_key as_item key_of_key hashable keqb_eq ieqb_eq as_key_self key_of_key_id). Qed.
 
   (* ---- an operation that raises leaves the dict exactly as it was ---- *)
   Theorem C14_failed_operation_changes_nothing : forall enf d o e,
     Inv d -> TInv d -> wf_op o -> fst (step enf d o) = Err e -> snd (step enf d o) = d.
-  Proof. exact (step_atomic key keqb ieqb valid as_key as_item key_of_key keqb_eq ieqb_eq as_key_self key_of_key_id). Qed.
+  Proof. exact (step_atomic key keqb ieqb valid as_key as_item key_of_key hashable keqb_eq ieqb_eq as_key_self key_of_key_id). Qed.
 
   (* ---- enforce_item_equivalence=True: adding an unequal item under an
      existing key raises ValueError (TypeError when it is ill typed too) and
@@ -105,19 +106,19 @@ Section C14.
   Theorem C14_enforce_add_unequal : forall d x y,
     Inv d -> lookup (key x) d = Some y -> y <> x ->
     step true d (OAdd x) = (Err (if valid x then ValueErr else TypeErr), d).
-  Proof. exact (enforce_add_unequal key keqb ieqb valid as_key as_item key_of_key ieqb_eq). Qed.
+  Proof. exact (enforce_add_unequal key keqb ieqb valid as_key as_item key_of_key hashable ieqb_eq). Qed.
 
   Theorem C14_add_succeeds : forall enf d x, valid x = true ->
     (enf = false \/ forall y, lookup (key x) d = Some y -> y = x) ->
     step enf d (OAdd x) = (Ok RNone, put (key x) x d).
-  Proof. exact (add_succeeds key keqb ieqb valid as_key as_item key_of_key ieqb_eq). Qed.
+  Proof. exact (add_succeeds key keqb ieqb valid as_key as_item key_of_key hashable ieqb_eq). Qed.
 
   (* ---- typed: an ill-typed item or key is rejected and nothing changes
      (that no operation at all lets one in is C14_refines_map /
      C14_reachable_invariant: TInv and out_ok) ---- *)
   Theorem C14_typed_add_rejects : forall enf d x, valid x = false ->
     step enf d (OAdd x) = (Err TypeErr, d).
-  Proof. exact (typed_add_rejects key keqb ieqb valid as_key as_item key_of_key). Qed.
+  Proof. exact (typed_add_rejects key keqb ieqb valid as_key as_item key_of_key hashable). Qed.
 
   (* ---- set algebra on keys.  (eb, b) is the other operand read as a map:
      a KeyedSet operand as it is, a built-in set or list as the KeyedSet of
@@ -126,24 +127,24 @@ Section C14.
     Inv d -> TInv d -> omap enf d p = Ok (eb, b) -> loose eb b (vals d) ->
     exists r, step enf d (OSub p) = (Ok (RNew r), d) /\
               keys r = filter (fun k => negb (has k b)) (keys d).
-  Proof. exact (T_sub key keqb ieqb valid as_key as_item key_of_key keqb_eq ieqb_eq as_key_self key_of_key_id). Qed.
+  Proof. exact (T_sub key keqb ieqb valid as_key as_item key_of_key hashable keqb_eq ieqb_eq as_key_self key_of_key_id). Qed.
 
   Theorem C14_intersection : forall enf d p r d',
     Inv d -> TInv d -> loose enf d (oitems d p) ->
     (step enf d (OAnd p) = (Ok (RNew r), d') \/ step enf d (ORAnd p) = (Ok (RNew r), d')) ->
     forall k, In k (keys r) <-> In k (keys d) /\ In k (map key (oitems d p)).
-  Proof. exact (T_and key keqb ieqb valid as_key as_item key_of_key keqb_eq ieqb_eq as_key_self key_of_key_id). Qed.
+  Proof. exact (T_and key keqb ieqb valid as_key as_item key_of_key hashable keqb_eq ieqb_eq as_key_self key_of_key_id). Qed.
 
   Theorem C14_union : forall enf d p r d', Inv d -> TInv d ->
     (step enf d (OOr p) = (Ok (RNew r), d') \/ step enf d (OROr p) = (Ok (RNew r), d')) ->
     forall k, In k (keys r) <-> In k (keys d) \/ In k (map key (oitems d p)).
-  Proof. exact (T_or key keqb ieqb valid as_key as_item key_of_key keqb_eq ieqb_eq as_key_self key_of_key_id). Qed.
+  Proof. exact (T_or key keqb ieqb valid as_key as_item key_of_key hashable keqb_eq ieqb_eq as_key_self key_of_key_id). Qed.
 
   Theorem C14_reflected_difference : forall enf d p eb b r d',
     Inv d -> TInv d -> omap enf d p = Ok (eb, b) -> loose enf d (oitems d p) ->
     step enf d (ORSub p) = (Ok (RNew r), d') ->
     forall k, In k (keys r) <-> In k (keys b) /\ ~ In k (keys d).
-  Proof. exact (T_rsub key keqb ieqb valid as_key as_item key_of_key keqb_eq ieqb_eq as_key_self key_of_key_id). Qed.
+  Proof. exact (T_rsub key keqb ieqb valid as_key as_item key_of_key hashable keqb_eq ieqb_eq as_key_self key_of_key_id). Qed.
 
   Theorem C14_symmetric_difference : forall enf d p eb b r d',
     Inv d -> TInv d -> omap enf d p = Ok (eb, b) ->
@@ -151,34 +152,34 @@ Section C14.
     (step enf d (OXor p) = (Ok (RNew r), d') \/ step enf d (ORXor p) = (Ok (RNew r), d')) ->
     forall k, In k (keys r) <->
               (In k (keys d) /\ ~ In k (keys b)) \/ (In k (keys b) /\ ~ In k (keys d)).
-  Proof. exact (T_xor key keqb ieqb valid as_key as_item key_of_key keqb_eq ieqb_eq as_key_self key_of_key_id). Qed.
+  Proof. exact (T_xor key keqb ieqb valid as_key as_item key_of_key hashable keqb_eq ieqb_eq as_key_self key_of_key_id). Qed.
 
   Theorem C14_le : forall enf d p eb b,
     Inv d -> TInv d -> comparable p -> omap enf d p = Ok (eb, b) -> loose eb b (vals d) ->
     exists t, step enf d (OLe p) = (Ok (RBool t), d) /\ (t = true <-> incl (keys d) (keys b)).
-  Proof. exact (T_le key keqb ieqb valid as_key as_item key_of_key keqb_eq ieqb_eq as_key_self key_of_key_id). Qed.
+  Proof. exact (T_le key keqb ieqb valid as_key as_item key_of_key hashable keqb_eq ieqb_eq as_key_self key_of_key_id). Qed.
 
   Theorem C14_lt : forall enf d p eb b,
     Inv d -> TInv d -> comparable p -> omap enf d p = Ok (eb, b) -> loose eb b (vals d) ->
     exists t, step enf d (OLt p) = (Ok (RBool t), d) /\
               (t = true <-> incl (keys d) (keys b) /\ (length d < length b)%nat).
-  Proof. exact (T_lt key keqb ieqb valid as_key as_item key_of_key keqb_eq ieqb_eq as_key_self key_of_key_id). Qed.
+  Proof. exact (T_lt key keqb ieqb valid as_key as_item key_of_key hashable keqb_eq ieqb_eq as_key_self key_of_key_id). Qed.
 
   Theorem C14_ge : forall enf d p eb b,
     Inv d -> TInv d -> comparable p -> omap enf d p = Ok (eb, b) -> loose enf d (vals b) ->
     exists t, step enf d (OGe p) = (Ok (RBool t), d) /\ (t = true <-> incl (keys b) (keys d)).
-  Proof. exact (T_ge key keqb ieqb valid as_key as_item key_of_key keqb_eq ieqb_eq as_key_self key_of_key_id). Qed.
+  Proof. exact (T_ge key keqb ieqb valid as_key as_item key_of_key hashable keqb_eq ieqb_eq as_key_self key_of_key_id). Qed.
 
   Theorem C14_gt : forall enf d p eb b,
     Inv d -> TInv d -> comparable p -> omap enf d p = Ok (eb, b) -> loose enf d (vals b) ->
     exists t, step enf d (OGt p) = (Ok (RBool t), d) /\
               (t = true <-> incl (keys b) (keys d) /\ (length b < length d)%nat).
-  Proof. exact (T_gt key keqb ieqb valid as_key as_item key_of_key keqb_eq ieqb_eq as_key_self key_of_key_id). Qed.
+  Proof. exact (T_gt key keqb ieqb valid as_key as_item key_of_key hashable keqb_eq ieqb_eq as_key_self key_of_key_id). Qed.
 
   Theorem C14_isdisjoint : forall enf d p, Inv d -> TInv d -> loose enf d (oitems d p) ->
     exists t, step enf d (OIsDisjoint p) = (Ok (RBool t), d) /\
               (t = true <-> forall k, In k (map key (oitems d p)) -> ~ In k (keys d)).
-  Proof. exact (T_isdisjoint key keqb ieqb valid as_key as_item key_of_key keqb_eq ieqb_eq as_key_self key_of_key_id). Qed.
+  Proof. exact (T_isdisjoint key keqb ieqb valid as_key as_item key_of_key hashable keqb_eq ieqb_eq as_key_self key_of_key_id). Qed.
 
   (* == between two KeyedSets is equality of mappings: same keys, equal items
      (interpretation recorded in docs/C14.md); != is its negation *)
@@ -186,22 +187,22 @@ Section C14.
     exists t, step enf d (OEq (PKS eb xs)) = (Ok (RBool t), d) /\
               step enf d (ONe (PKS eb xs)) = (Ok (RBool (negb t)), d) /\
               (t = true <-> forall k, lookup k d = lookup k (the_map xs)).
-  Proof. exact (T_eq key keqb ieqb valid as_key as_item key_of_key keqb_eq ieqb_eq). Qed.
+  Proof. exact (T_eq key keqb ieqb valid as_key as_item key_of_key hashable keqb_eq ieqb_eq). Qed.
 
   Theorem C14_inplace_union : forall enf d p r o, Inv d -> TInv d ->
     step enf d (OIOr p) = (Ok o, r) ->
     o = RSelf /\ forall k, In k (keys r) <-> In k (keys d) \/ In k (map key (oitems d p)).
-  Proof. exact (T_ior key keqb ieqb valid as_key as_item key_of_key keqb_eq ieqb_eq as_key_self key_of_key_id). Qed.
+  Proof. exact (T_ior key keqb ieqb valid as_key as_item key_of_key hashable keqb_eq ieqb_eq as_key_self key_of_key_id). Qed.
 
   Theorem C14_inplace_intersection : forall enf d p eb b,
     Inv d -> TInv d -> omap enf d p = Ok (eb, b) -> loose eb b (vals d) ->
     exists r, step enf d (OIAnd p) = (Ok RSelf, r) /\ keys r = filter (fun k => has k b) (keys d).
-  Proof. exact (T_iand key keqb ieqb valid as_key as_item key_of_key keqb_eq ieqb_eq as_key_self key_of_key_id). Qed.
+  Proof. exact (T_iand key keqb ieqb valid as_key as_item key_of_key hashable keqb_eq ieqb_eq as_key_self key_of_key_id). Qed.
 
   Theorem C14_inplace_difference : forall enf d p, Inv d -> TInv d -> loose enf d (oitems d p) ->
     exists r, step enf d (OISub p) = (Ok RSelf, r) /\
               keys r = filter (fun k => negb (existsb (fun x => keqb (key x) k) (oitems d p))) (keys d).
-  Proof. exact (T_isub key keqb ieqb valid as_key as_item key_of_key keqb_eq ieqb_eq as_key_self key_of_key_id). Qed.
+  Proof. exact (T_isub key keqb ieqb valid as_key as_item key_of_key hashable keqb_eq ieqb_eq as_key_self key_of_key_id). Qed.
 
   Theorem C14_inplace_symmetric_difference : forall enf d p eb b r o,
     Inv d -> TInv d -> omap enf d p = Ok (eb, b) ->
@@ -210,11 +211,11 @@ Section C14.
     o = RSelf /\
     forall k, In k (keys r) <->
               (In k (keys d) /\ ~ In k (keys b)) \/ (In k (keys b) /\ ~ In k (keys d)).
-  Proof. exact (T_ixor key keqb ieqb valid as_key as_item key_of_key keqb_eq ieqb_eq as_key_self key_of_key_id). Qed.
+  Proof. exact (T_ixor key keqb ieqb valid as_key as_item key_of_key hashable keqb_eq ieqb_eq as_key_self key_of_key_id). Qed.
 
   Theorem C14_inplace_with_itself : forall enf d, Inv d -> TInv d ->
     step enf d (OIXor PSelf) = (Ok RSelf, []) /\ step enf d (OISub PSelf) = (Ok RSelf, []).
-  Proof. exact (T_ixor_self key keqb ieqb valid as_key as_item key_of_key keqb_eq ieqb_eq as_key_self key_of_key_id). Qed.
+  Proof. exact (T_ixor_self key keqb ieqb valid as_key as_item key_of_key hashable keqb_eq ieqb_eq as_key_self key_of_key_id). Qed.
 End C14.
 
 (* ---------------- non-vacuity ---------------- *)
@@ -258,7 +259,7 @@ Qed.
 (* the enforce theorem is not vacuous: a conflicting add really is rejected,
    an equal one and one under a new key are accepted *)
 Example C14_enforce_example :
-  let st := step kkey_fst Z.eqb kieqb (kvalid_of true) (fun _ => None) (fun _ => None) (kok_fst true) true in
+  let st := step kkey_fst Z.eqb kieqb (kvalid_of true) (fun _ => None) (fun _ => None) (kok_fst true) (fun _ => true) true in
   st [(1, (1, 0))] (OAdd (1, 7)) = (Err ValueErr, [(1, (1, 0))]) /\
   st [(1, (1, 0))] (OAdd (1, 0)) = (Ok RNone, [(1, (1, 0))]) /\
   st [(1, (1, 0))] (OAdd (2, 7)) = (Ok RNone, [(1, (1, 0)); (2, (2, 7))]) /\
@@ -268,7 +269,7 @@ Proof. vm_compute. repeat split. Qed.
 (* with the flag on and operands that disagree on a shared key the algebra is
    on (key, item) pairs, not on keys: the `loose` hypotheses cannot be dropped *)
 Example C14_loose_is_needed :
-  let st := step kkey_fst Z.eqb kieqb (fun _ => true) (fun _ => None) (fun _ => None) (kok_fst true) true in
+  let st := step kkey_fst Z.eqb kieqb (fun _ => true) (fun _ => None) (fun _ => None) (kok_fst true) (fun _ => true) true in
   st [(1, (1, 0))] (OSub (PKS true [(1, 7)])) = (Ok (RNew [(1, (1, 0))]), [(1, (1, 0))]) /\
   st [(1, (1, 0))] (OLe (PKS true [(1, 7)])) = (Ok (RBool false), [(1, (1, 0))]) /\
   st [(1, (1, 0))] (OOr (PKS true [(1, 7)])) = (Err ValueErr, [(1, (1, 0))]).
